@@ -10,6 +10,8 @@ CHECK_MODULE = "Check.C19"
 ORACLE_MODULE = "Check.C19o"
 TARGETS_CHECK = ["theories/Check/C19o.vo", "theories/Check/C19.vo"]
 TARGETS_PROP = ["theories/Properties/C19.vo"]
+GEN = [("GenFold.v", "fold", ["internal/seq/foldable.go"])]
+GEN_DEPS = ["GenFold.v"]
 SHARD = 700
 RULE = ("scripts over a store of at most 3 sequences, run on the staged copy of /repo/internal/seq with both list.Trait and "
         "slice.Trait: ALL scripts of 1..4 operations (quick; 5 in thorough) built from New (5 shapes of argument slice incl. spare "
@@ -22,6 +24,9 @@ RULE = ("scripts over a store of at most 3 sequences, run on the staged copy of 
         "the operation pauses on the first element) and Length, on both traits. "
         "A case is distinct by its script; non-trivial when it builds a sequence from another one")
 TRUSTED = [
+    "tools/go2coq mode fold (go/parser AST of internal/seq/foldable.go -> the loop of Foldable.Fold as a fuelled Gallina recursion over the "
+    "trait's IsEmpty/Head/Tail and the monoid's Empty/Combine; the signatures and the partiality (Head/Tail of the empty sequence panic) of "
+    "those methods are a table of the translator); C19_generated_fold_is_model_fold ties it to the model's fold",
     "modelled, not verified: Go's append/slicing semantics as Seq/Model.go_append / s_tail (in place iff capacity allows), "
     "nil-pointer and index panics as None; pointers to list cells as allocation indexes",
     "harness/c19 (script interpreter over seq.Seq[F,int64], recover() -> panic observation) and the JSON -> Coq case writer",
